@@ -30,8 +30,8 @@ PID = "C45"
 LEVEL = "proof"
 LEAN = ["SaVerif.Props.C45"]
 META = {
-    "text": "Lean theorems over the merge model for ALL session states and ALL sources (any partial loading): every attribute loaded on the source is equal on the merged instance and every attribute not loaded keeps its value (merge_copies_loaded); merging an equal source again leaves the whole session state unchanged and emits no SQL (merge_idempotent; hypothesis: the first merge did not create a still-pending instance, for which the second merge is skipped by the harness - documented behaviour with autoflush off); with load=False no SQL is emitted, the database is untouched and the result carries no net change (merge_noload_no_sql_no_change), and transient / dirty-and-absent sources are rejected (merge_noload_rejects); the returned instance carries the source's full identity key, identity token included (merge_keeps_identity). Tied to orm/session.py, properties.py by a differential run (values, net-change flag, SQL statement count per merge); identity of the returned instance, idempotence, graph cascades and flushed rows are re-checked on the real objects by an independent oracle.",
-    "note": "Trusted: Lean kernel; correspondence; SQLite. In the model the identity map is a function of the primary key, so 'the single instance' is by construction there: object identity (`is`) is established only by the oracle on the real objects. Relationship cascade of merge is covered by the oracle stream only (not modelled in Lean). autoflush is off; sources always carry a full primary key. Fixture classes define __len__/__bool__ (falsy instances) and value __eq__/__hash__ (equal-but-distinct instances). merge(load=False) of a source whose key has an identity token is excluded: the new instance gets the key but not state.identity_token and is re-keyed to the token-less identity at the next flush (observed defect, reported).",
+    "text": "Lean theorems over the merge model for ALL session states and ALL sources (any partial loading): every attribute loaded on the source is equal on the merged instance and every attribute not loaded keeps its value (merge_copies_loaded); merging an equal source again leaves the whole session state unchanged and emits no SQL (merge_idempotent; hypothesis: the first merge did not create a still-pending instance, for which the second merge is skipped by the harness - documented behaviour with autoflush off); with load=False no SQL is emitted, the database is untouched and the result carries no net change (merge_noload_no_sql_no_change), and transient / dirty-and-absent sources are rejected (merge_noload_rejects); the returned instance carries the source's full identity key, identity token included (merge_keeps_identity, merge_noload_keeps_identity). Tied to orm/session.py, properties.py by a differential run (values, net-change flag, SQL statement count per merge); identity of the returned instance, idempotence, graph cascades and flushed rows are re-checked on the real objects by an independent oracle.",
+    "note": "Trusted: Lean kernel; correspondence; SQLite. In the model the identity map is a function of the primary key, so 'the single instance' is by construction there: object identity (`is`) is established only by the oracle on the real objects. Relationship cascade of merge is covered by the oracle stream only (not modelled in Lean). autoflush is off; sources always carry a full primary key. Fixture classes define __len__/__bool__ (falsy instances) and value __eq__/__hash__ (equal-but-distinct instances). merge(load=False) of token-carrying sources is exercised since fix 92da004 (state.identity_token set from the key); the oracle key merge-noload-identity-token-not-set-on-state guards it.",
     "technique": "Lean 4 proofs over a merge model + differential correspondence incl. SQL statement counts + direct oracle on real object graphs",
     "design_ref": "DESIGN.md §3 C45",
 }
@@ -319,6 +319,10 @@ def run_flat(case):
                                 problems.append(("merge-touched-unloaded-attribute", "%s: expected %s, merged has %s" % (x, exp, got)))
                     if not load:
                         noload_pks.add(k)
+                        if not st.pending and st.identity_token != st.key[2]:
+                            problems.append(("merge-noload-identity-token-not-set-on-state",
+                                             "merge(load=False) returned an instance with key token %r but state.identity_token %r: the next flush re-keys it"
+                                             % (st.key[2], st.identity_token)))
                         if q:
                             problems.append(("merge-noload-emitted-sql", "%d statements" % q))
                         if sess.is_modified(m) or m in sess.dirty:
@@ -566,11 +570,6 @@ def gen_flat(rng, tier):
             # without a row and modified later cannot be flushed (StaleDataError), not our subject
             has_row = any(o[0] == "ins" and o[1] == src["pk"] for o in ops)
             load = 1 if (rng.random() < 0.65 or not has_row) else 0
-            if not load:
-                # observed, not modelled: merge(load=False) gives the new instance the source's key but
-                # leaves state.identity_token unset, so the next flush re-keys it to the token-less
-                # identity; load=False is exercised with token-less sources only
-                src["tok"] = 0
             ops.append(("m", load, src))
     return n, ops
 
@@ -633,8 +632,6 @@ def small_scope():
             for l1 in (1, 0):
                 for l2 in (1, 0):
                     if not pre and (l1 == 0 or l2 == 0):
-                        continue
-                    if (l1 == 0 and s1["tok"]) or (l2 == 0 and s2["tok"]):
                         continue
                     yield pre + [("m", l1, s1), ("m", l2, s2), ("flush",), ("m", 1, s1)]
 
